@@ -1157,6 +1157,19 @@ class Interp:
             if isinstance(a, Container):
                 return sp.Function("norm")(S(a.tag()))
             raise Unsupported("norm")
+        if nm == "isZero":
+            # Eigen's isZero(prec) is a *tolerance* test on the entries: an opaque proposition about the data
+            v = self.load(obj) if isinstance(obj, Ref) else obj
+            if isinstance(v, BlockVec):
+                names = sorted(repr(norm_atoms(r_)) for r_ in v.rows if isinstance(r_, Vec))
+                return sp.Function("isZeroTol")(S("|".join(names)))
+            if isinstance(v, RangeVal) and isinstance(v.vec, Vec):
+                return sp.Function("isZeroTol")(S(repr(norm_atoms(v.vec))))
+            if isinstance(v, Vec):
+                return sp.Function("isZeroTol")(S(repr(norm_atoms(v))))
+            if isinstance(v, Container):
+                return sp.Function("isZeroTol")(S("array:" + v.tag()))
+            raise Unsupported("isZero of %s" % type(v).__name__)
         if nm == "setZero":
             self.set_zero(obj, args, env, e)
             return obj
